@@ -61,8 +61,10 @@ def cred_ok(u: bytes, p: bytes) -> bool:
 
 
 # ------------------------------------------------------------------------------------------------ running the layer
-def run_stream(stream, auth, eager, ok, cuts, hold_auth, hold_open, close):
-    """-> (Obs before the client closes, extra dict)"""
+def run_stream(stream, auth, eager, ok, cuts, hold_auth, hold_open, close, child="recorder"):
+    """-> (Obs before the client closes, extra dict).  child: what the next_layer hook installs behind the SOCKS5
+    layer: a passive Recorder (observes the DataReceived events), or the real TCPLayer (end-to-end: the relayed
+    bytes are observed at the server peer)."""
     from mitmproxy.proxy.layers import modes
     from mitmproxy.proxy import commands
 
@@ -80,7 +82,11 @@ def run_stream(stream, auth, eager, ok, cuts, hold_auth, hold_open, close):
                 return driver.HOLD
         elif cmd.name == "next_layer":
             if cmd.data.layer is None:
-                cmd.data.layer = Recorder(cmd.data.context, log)
+                if child == "tcp":
+                    from mitmproxy.proxy.layers import TCPLayer
+                    cmd.data.layer = TCPLayer(cmd.data.context)
+                else:
+                    cmd.data.layer = Recorder(cmd.data.context, log)
         return None
 
     def conns(cmd):
@@ -120,9 +126,13 @@ def run_stream(stream, auth, eager, ok, cuts, hold_auth, hold_open, close):
     o.client_out = d.out(ctx.client)
     o.closed = d_closed(d, ctx.client)
     o.connects = [tuple(t[1].address) if t[1].address else None for t in d.trace if t[0] == "open"]
-    o.child_started = any(x[0] == "start" for x in log)
     o.child_addr = tuple(ctx.server.address) if ctx.server.address else None
-    o.child_data = b"".join(x[2] for x in log if x[0] == "data" and x[1])
+    if child == "tcp":
+        o.child_started = any(t[0] == "hook" and t[1] == "tcp_start" for t in d.trace)
+        o.child_data = b"".join(d.out(sv) for sv in d.servers)
+    else:
+        o.child_started = any(x[0] == "start" for x in log)
+        o.child_data = b"".join(x[2] for x in log if x[0] == "data" and x[1])
     o.connect_ok = ok
     o.eager = eager
     extra = {"crash": d.crashed, "held_left": len(d.held)}
@@ -146,8 +156,14 @@ def obs_key(o):
 def check_case(case, ctx):
     stream = case["stream"]
     auth, eager, ok, close = case["auth"], case["eager"], case["ok"], case["close"]
+    child = case.get("child", "recorder")
+    if child == "tcp":
+        # the real TCPLayer opens the connection itself under the lazy strategy, after the success reply: a failure
+        # there is not the SOCKS5 layer's business; and it reacts to EOF by closing, which Recorder does not
+        ok = ok or not eager
+        close = False
 
-    whole, xw = run_stream(stream, auth, eager, ok, [], None, None, close)
+    whole, xw = run_stream(stream, auth, eager, ok, [], None, None, close, child)
     if xw["crash"] is not None:
         ctx.crash(xw["crash"], "layer-crash")
         return
@@ -172,7 +188,7 @@ def check_case(case, ctx):
         first = False
         nseg = len(segments(stream, cuts))
         if not (nseg <= 1 and ha is None and ho is None):
-            seg, xs = run_stream(stream, auth, eager, ok, cuts, ha, ho, close)
+            seg, xs = run_stream(stream, auth, eager, ok, cuts, ha, ho, close, child)
             if xs["crash"] is not None:
                 ctx.crash(xs["crash"], "layer-crash")
                 continue
@@ -185,8 +201,8 @@ def check_case(case, ctx):
                          "whole=%r segmented=%r stream=%r cuts=%r" % (xw, xs, stream, cuts))
         if nontrivial:
             segclass = "whole" if nseg <= 1 else "bytewise" if nseg == len(stream) else "cut"
-            ctx.nt((stream, auth, eager, ok, tuple(cuts), ha, ho, close),
-                   "%s|%s%s%s" % (klass, segclass, "|held-auth" if ha is not None and auth else "",
+            ctx.nt((stream, auth, eager, ok, tuple(cuts), ha, ho, close, child),
+                   "%s|%s%s%s%s" % (klass, segclass, "|tcp-child" if child == "tcp" else "", "|held-auth" if ha is not None and auth else "",
                                   "|held-open" if ho is not None and eager else ""))
         else:
             ctx.cls("trivial:%s:%s" % (e.state, klass))
@@ -326,7 +342,8 @@ def _decode(b: bytes):
             cuts = sorted({1 + (r.byte() << 8 | r.byte()) % (n - 1) for _ in range(1 + r.byte() % 6)})
         h1, h2 = r.byte(), r.byte()
         scheds.append([cuts, h1 % 5 if h1 >= 128 else None, h2 % 5 if h2 >= 128 else None])
-    return {"stream": stream, "auth": auth, "eager": eager, "ok": ok, "close": close, "scheds": scheds}
+    return {"stream": stream, "auth": auth, "eager": eager, "ok": ok, "close": close, "scheds": scheds,
+            "child": "tcp" if r.byte() % 4 == 0 else "recorder"}
 
 
 NSCHED = 4
@@ -426,7 +443,7 @@ def _atheris(ctx):
         return
     import tempfile
     import shutil
-    runs = int(os.environ.get("VERIF_ATHERIS_RUNS", "400000"))
+    runs = int(os.environ.get("VERIF_ATHERIS_RUNS", "300000"))
     tmp = tempfile.mkdtemp(prefix="verif-c21-", dir="/var/tmp")
     try:
         for i, (stream, auth) in enumerate(CANON):
@@ -434,47 +451,52 @@ def _atheris(ctx):
                 f.write(bytes([3 if auth else 2, 0, 0]) + stream)
         pid = os.fork()
         if pid == 0:
-            # libFuzzer owns the process (it calls exit); findings travel back through a file
+            # libFuzzer owns the process (it exits by itself); findings and statistics travel back through files
             import json
-            from runner import enc
             code = 0
             try:
-                from mitmproxy.proxy.layers import modes as _m  # noqa: F401
-                atheris.instrument_all()
+                devnull = os.open(os.devnull, os.O_WRONLY)
+                os.dup2(devnull, 1)
+                os.dup2(devnull, 2)
+                from mitmproxy.proxy.layers import modes as _m
+                # instrument only the code under test (instrument_all() on the whole process takes minutes)
+                cls = _m.Socks5Proxy
+                for fname in ("_handle_event", "state_greet", "state_auth", "state_connect", "socks_err"):
+                    setattr(cls, fname, atheris.instrument_func(getattr(cls, fname)))
+                cls.state = cls.state_greet
+                _m.DestinationKnown.finish_start = atheris.instrument_func(_m.DestinationKnown.finish_start)
+                start = ctx.evaluations
 
                 def target(b):
                     _fuzz_one(b, ctx)
+                    n = ctx.evaluations - start
+                    if ctx.failures or n % 2000 == 0:
+                        with open(os.path.join(tmp, "evals"), "w") as f:
+                            f.write(str(n))
                     if ctx.failures:
                         with open(os.path.join(tmp, "findings.json"), "w") as f:
                             json.dump({b: [list(c) for c in s["cases"]] for b, s in ctx.failures.items()}, f)
-                        with open(os.path.join(tmp, "evals"), "w") as f:
-                            f.write(str(ctx.evaluations))
                         os._exit(0)
 
                 atheris.Setup([sys.argv[0], "-runs=%d" % runs, "-seed=%d" % (ctx.shard_seed % (1 << 31)),
                                "-max_len=96", "-verbosity=0", "-print_final_stats=0", tmp], target)
-                try:
-                    atheris.Fuzz()
-                except SystemExit:
-                    pass
+                atheris.Fuzz()
+            except SystemExit:
+                pass
             except BaseException:
                 code = 3
             finally:
-                try:
-                    with open(os.path.join(tmp, "evals"), "w") as f:
-                        f.write(str(ctx.evaluations))
-                except Exception:
-                    pass
                 os._exit(code)
         _, status = os.waitpid(pid, 0)
         import json
         from runner import dec
         try:
             with open(os.path.join(tmp, "evals")) as f:
-                done = int(f.read() or 0) - ctx.evaluations
-                ctx.extra["atheris_execs"] = max(done, 0)
+                ctx.extra["atheris_execs_at_least"] = int(f.read() or 0)
         except Exception:
             ctx.notes.append("atheris child left no statistics (status %r)" % (status,))
+        if os.WIFEXITED(status) and os.WEXITSTATUS(status) == 3:
+            ctx.notes.append("atheris child failed to start: coverage-guided part did not run")
         fp = os.path.join(tmp, "findings.json")
         if os.path.exists(fp):
             with open(fp) as f:
